@@ -164,6 +164,7 @@ Proof. exact amount_call_den. Qed.
 Print Assumptions account_amount_incremental_eq.
 
 Theorem account_amount_called_twice_is_own : forall ord o ps a,
+  (forall p, In p ps -> p_temp p = false) ->
   own_lazy_twice ord o ps a = own_of ord o ps a.
 Proof. exact own_lazy_eq. Qed.
 Print Assumptions account_amount_called_twice_is_own.
@@ -210,6 +211,31 @@ Theorem tree_reads_back_parametric : forall cnt shown all fuel,
 Proof. intros cnt shown all fuel H. exact (read_tree_pre cnt shown all H fuel). Qed.
 Print Assumptions tree_reads_back_parametric.
 
+(* ---- directives: the posting finalize() infers for a default account (bucket X / A X /
+        account X + default) is an ordinary posting; and the wipe after the journal is read
+        (xact_base_t::clear_xdata, its test regenerated from the source into Gen/ClearXdata.v)
+        leaves no posting of the journal VISITED, so a report counts a posting in
+        account_t::amount() iff its own filter selected it ---- *)
+Theorem clear_xdata_wipes_every_journal_posting : forall p,
+  p_temp p = false -> survives_clear p = false.
+Proof. exact survives_clear_journal. Qed.
+Print Assumptions clear_xdata_wipes_every_journal_posting.
+
+Theorem visited_iff_selected : forall o p,
+  p_temp p = false -> visited_at_report o p = sel o p.
+Proof. exact visited_at_report_journal. Qed.
+Print Assumptions visited_iff_selected.
+
+Theorem inferred_posting_is_ordinary_for_totals : forall ord o ps a,
+  total_of ord o (map as_written ps) a = total_of ord o ps a.
+Proof. exact total_of_as_written. Qed.
+Print Assumptions inferred_posting_is_ordinary_for_totals.
+
+Theorem inferred_posting_is_ordinary_for_register : forall ord o ps,
+  reg_rows ord o (map as_written ps) = reg_rows ord o ps.
+Proof. exact reg_rows_as_written. Qed.
+Print Assumptions inferred_posting_is_ordinary_for_register.
+
 (* ---- lots: whatever lot details are kept, the displayed value has, for every base commodity s,
         the sum of all annotated variants of s in the exact value (showing lots refines a total
         but never changes its per-commodity sum) ---- *)
@@ -228,11 +254,11 @@ Print Assumptions strip_keeps_base_commodity.
 Local Close Scope Q_scope.
 Local Open Scope Z_scope.
 Example ex_amt (n : Z) (c : str) : amount := mkAmt (inject_Z n) 0 false (Some c).
-Example ex_opts : opts := mkOpts false SAny [] false false false false false None false.
+Example ex_opts : opts := mkOpts false SAny [] None None false false false false false None false.
 Example ex_posts : list posting :=
-  [ mkPost 0 [80] Uncleared Uncleared [[65]; [66]] false (ex_amt 10 [36]) None;
-    mkPost 0 [80] Uncleared Cleared   [[65]]       false (ex_amt 5 [88; 126; 49; 126; 126]) None;
-    mkPost 0 [80] Uncleared Uncleared [[67]]       false (ex_amt (-10) [36]) None ].
+  [ mkPost 0 [80] Uncleared Uncleared [[65]; [66]] false (ex_amt 10 [36]) None 20200101 false false;
+    mkPost 0 [80] Uncleared Cleared   [[65]]       false (ex_amt 5 [88; 126; 49; 126; 126]) None 20200101 false false;
+    mkPost 0 [80] Uncleared Uncleared [[67]]       false (ex_amt (-10) [36]) None 20200101 false false ].
 
 Example ex_total_A :
   total_of true ex_opts ex_posts [[65]] =
@@ -244,6 +270,6 @@ Example ex_display_strips_lot :
 Proof. vm_compute. reflexivity. Qed.
 
 Example ex_cleared_only :
-  total_of true (mkOpts false SCleared [] false false false false false None false) ex_posts [] =
+  total_of true (mkOpts false SCleared [] None None false false false false false None false) ex_posts [] =
   Ok (VAmt (ex_amt 5 [88; 126; 49; 126; 126])).
 Proof. vm_compute. reflexivity. Qed.
